@@ -262,10 +262,16 @@ func (api *DatabaseAPI) Handle(msg []byte) {
 		go api.handleQuery(parts[0], string(parts[2]))
 	case "sub":
 		// 125|sub|<query>
-		go api.handleSub(parts[0], string(parts[2]))
+		// The subscription is registered before the next message is handled, so
+		// that a cancel sent right behind it finds it.
+		if _, sub, ok := api.startSub(parts[0], string(parts[2])); ok {
+			go api.processSub(parts[0], sub)
+		}
 	case "qsub":
 		// 127|qsub|<query>
-		go api.handleQsub(parts[0], string(parts[2]))
+		if q, sub, ok := api.startSub(parts[0], string(parts[2])); ok {
+			go api.processQsub(parts[0], q, sub)
+		}
 	case "create", "update", "insert":
 		// split key and payload
 		dataParts := bytes.SplitN(parts[2], []byte("|"), 2)
@@ -406,19 +412,27 @@ func (api *DatabaseAPI) handleSub(opID []byte, queryText string) {
 	//    125|delete|<key>
 	//    125|warning|<message> // error with single record, operation continues
 	// 125|cancel
-	var err error
-
-	q, err := query.ParseQuery(queryText)
-	if err != nil {
-		api.send(opID, dbMsgTypeError, err.Error(), nil)
-		return
-	}
-
-	sub, ok := api.registerSub(opID, q)
+	_, sub, ok := api.startSub(opID, queryText)
 	if !ok {
 		return
 	}
 	api.processSub(opID, sub)
+}
+
+// startSub parses the query of a sub or qsub request and registers the
+// subscription. It replies with the error if that fails.
+func (api *DatabaseAPI) startSub(opID []byte, queryText string) (q *query.Query, sub *database.Subscription, ok bool) {
+	q, err := query.ParseQuery(queryText)
+	if err != nil {
+		api.send(opID, dbMsgTypeError, err.Error(), nil)
+		return nil, nil, false
+	}
+
+	sub, ok = api.registerSub(opID, q)
+	if !ok {
+		return nil, nil, false
+	}
+	return q, sub, true
 }
 
 func (api *DatabaseAPI) registerSub(opID []byte, q *query.Query) (sub *database.Subscription, ok bool) {
@@ -507,19 +521,17 @@ func (api *DatabaseAPI) handleQsub(opID []byte, queryText string) {
 	//    127|warning|<message> // error with single record, operation continues
 	// 127|cancel
 
-	var err error
-
-	q, err := query.ParseQuery(queryText)
-	if err != nil {
-		api.send(opID, dbMsgTypeError, err.Error(), nil)
-		return
-	}
-
-	sub, ok := api.registerSub(opID, q)
+	q, sub, ok := api.startSub(opID, queryText)
 	if !ok {
 		return
 	}
-	ok = api.processQuery(opID, q)
+	api.processQsub(opID, q, sub)
+}
+
+// processQsub runs the query phase and then the subscription phase of a qsub
+// request whose subscription has been registered.
+func (api *DatabaseAPI) processQsub(opID []byte, q *query.Query, sub *database.Subscription) {
+	ok := api.processQuery(opID, q)
 	if !ok {
 		// The operation ended with the query: end the subscription, too.
 		_ = sub.Cancel()
